@@ -83,6 +83,7 @@ class Spec:
 
 def run_spec(spec, tier, seed, replay=None):
     run = vlib.Run(spec.pid, tier, seed)
+    run.is_replay = bool(replay)
     thorough = tier == "thorough"
     broken = []           # obligations / correspondences that no longer check
 
